@@ -289,6 +289,44 @@ def _sequences(acc, P, _parser, w, st):
                              'sys': has_sys, 'dom': has_dom}, want, got,
                             'sequence')
                     acc.outcome('twin-%s' % want)
+    # (e) ONE credentials mapping (plain dict / policy-values mapping, either
+    # spelling of the system scope) serves several calls, untouched by the
+    # caller in between
+    for rep, spelling, (has_sys, has_dom) in itertools.product(
+            ('dict', 'values'), ('system', 'system_scope'), scopes3):
+        if rep == 'values' and spelling == 'system':
+            continue
+        for how in ('name', 'object'):
+            enf = P.Enforcer(conf)
+            enf.register_default(P.RuleDefault(
+                'p', '@', scope_types=list(st) if st else None))
+            enf.load_rules()
+            creds = make_creds(rep, has_sys, has_dom,
+                               not (has_sys or has_dom), spelling, 'missing',
+                               'r')
+            want = ref(st, has_sys, has_dom, True, True)
+            for step in range(3):
+                if how == 'object':
+                    rule = _parser.parse_rule('@')
+                    rule.scope_types = list(st) if st else None
+                else:
+                    rule = 'p'
+                acc.ev()
+                got = outcome(enf, rule, creds)
+                acc.case('sequence', True)
+                if got != want:
+                    acc.violation(
+                        'sequence|same-credentials|%s|call%d|got=%s' % (
+                            how, step + 1, got),
+                        'call %d with the SAME %s credentials object (%s '
+                        'token, spelled %s): %s, expected %s (scope types '
+                        '%r)' % (step + 1, rep, 'system' if has_sys else
+                                 'domain' if has_dom else 'project', spelling,
+                                 got, want, st),
+                        {'scope_types': st, 'rep': rep, 'spelling': spelling,
+                         'sys': has_sys, 'dom': has_dom, 'how': how}, want,
+                        got, 'sequence')
+                acc.outcome('same-creds-%s' % want)
     acc.sample('sequence', {'scope_types': st})
 
 
